@@ -234,6 +234,7 @@ func VerifHarness_C05_KeyGrid() {
 			FuzzyThreshold: []int{0, 1, -30}[verifIntRange("threshold", 0, 2)],
 			TopTermsCap:    []int{0, 2, 12}[verifIntRange("termsCap", 0, 2)],
 			UseFuzzy:       true,
+			AllPlatforms:   true, // all seven entries match "aa": limits 0 (= 10), 1, 10 and 101 cut differently
 		}
 	}
 	o1, o2 := pick(), pick()
@@ -251,11 +252,13 @@ func VerifHarness_C05_Spacing() {
 		vFill(&c)
 		return c
 	}
-	db := &Database{Commands: []Command{mk("zq xw", "mm"), mk("zqxw", "nn"), mk("view file", "show file without opening it"), mk("oo", "pp")}}
+	db := &Database{Commands: []Command{mk("ka bz", "mm"), mk("zqxw", "nn"), mk("view file", "show file without opening it"), mk("oo", "pp")}}
 	db.BuildUniversalIndex()
 	db.buildTFIDFSearcher()
 	cdb := NewCachedDatabase(db)
-	pair := [][2]string{{"zq xw", "zq  xw"}, {"zqx w", "zqx  w"}, {"show file without opening", "show file without  opening"}}[verifIntRange("pair", 0, 2)]
+	// "a b" has no index term (one-letter words): the typo fallback matches it as typed, and
+	// with two blanks it no longer is a subsequence of "ka bz mm"
+	pair := [][2]string{{"a b", "a  b"}, {"k z", "k   z"}, {"show file without opening", "show file without  opening"}}[verifIntRange("pair", 0, 2)]
 	first, second := pair[0], pair[1]
 	if verifBool("swap") {
 		first, second = second, first
